@@ -45,6 +45,7 @@ type Config struct {
 	TimeoutMs    int `json:"timeout_ms"`
 	SampleModels int `json:"sample_models"`
 	Preempt      int `json:"preempt"`
+	TimeBudgetS  int `json:"time_budget_s"`
 }
 
 func (c *Config) isUnderTest(path string) bool {
@@ -286,7 +287,7 @@ func Run(cfg *Config) *Result {
 		return res
 	}
 	lim := Limits{MaxPaths: cfg.MaxPaths, MaxDecisions: cfg.MaxDecisions, Unwind: cfg.Unwind, MaxInstrs: cfg.MaxInstrs,
-		TimeoutMs: cfg.TimeoutMs, SampleModels: cfg.SampleModels, Preempt: cfg.Preempt}
+		TimeoutMs: cfg.TimeoutMs, SampleModels: cfg.SampleModels, Preempt: cfg.Preempt, TimeBudgetS: cfg.TimeBudgetS}
 	if lim.TimeoutMs == 0 {
 		lim.TimeoutMs = 10000
 	}
@@ -346,7 +347,7 @@ func Run(cfg *Config) *Result {
 		res.SolverErrors = res.SolverErrors[:20]
 	}
 	res.Bounds = map[string]int{"max_paths": lim.MaxPaths, "max_decisions_per_path": lim.MaxDecisions, "unwind_per_site": lim.Unwind,
-		"max_instrs_per_path": lim.MaxInstrs, "solver_timeout_ms": lim.TimeoutMs, "preemptions": lim.Preempt, "map_permute": cfg.MapPermute}
+		"max_instrs_per_path": lim.MaxInstrs, "solver_timeout_ms": lim.TimeoutMs, "preemptions": lim.Preempt, "map_permute": cfg.MapPermute, "time_budget_s": lim.TimeBudgetS}
 	res.WallS = time.Since(t0).Seconds()
 	sort.Slice(res.Violations, func(a, b int) bool { return res.Violations[a].Label < res.Violations[b].Label })
 	return res
